@@ -879,3 +879,31 @@ def cli_option_rule(ctx: T.Any, rule: str, names: T.Iterable[str]) -> None:
             f_ = kws.get("is_flag")
             ctx.check(rule, isinstance(f_, ast.Constant) and f_.value is True, f"cli: option {name} is a flag", f"cli: option {name} is not a flag (it consumes the next argument)",
                       f"`is_flag={unparse(f_) if f_ is not None else None}`", loc=f"{mod.relpath}:{c.lineno}")
+
+
+def errors_are_fatal(ctx: T.Any, rule: str, fq: str, floor: int) -> None:
+    """In the validation helper `fq`, every `logger.error(...)` is followed, on every path, by a process exit or a raise:
+    the function's normal return is not reachable from the report.  (Non-zero exit codes are decided by the exit-code
+    rules; this one decides that the rejection is not merely logged.)"""
+    fn = ctx.prog.function(fq)
+    ctx.visit(fn.fq)
+    cfg = ctx.cfgs.get(fn.fq)
+    live = cfg.reachable()
+    sites = []
+    for n in cfg.nodes:
+        if n.kind != "stmt" or n.id not in live or not isinstance(n.ast, ast.Expr) or not isinstance(n.ast.value, ast.Call):
+            continue
+        if unparse(n.ast.value.func) in ("logger.error", "logger.critical"):
+            sites.append(n)
+    ctx.floor(rule, f"error reports in {fq}", len(sites), floor)
+    for n in sites:
+        after = cfg.reachable(start=n.id)
+        if cfg.exit in after:
+            flagged = [m for m in cfg.nodes if m.id in after and m.kind == "stmt" and isinstance(m.ast, ast.Assign) and isinstance(m.ast.value, ast.Constant)
+                       and isinstance(m.ast.value.value, bool)]
+            if flagged:
+                raise AnalysisError(f"{fq}: the error at line {n.ast.lineno} is recorded in a flag variable (`{unparse(flagged[0].ast)}`); this rule decides only direct exits")
+        msg = unparse(n.ast.value.args[0])[:70] if n.ast.value.args else ""
+        ctx.check(rule, cfg.exit not in after, f"{fq}: `logger.error({msg}...)` is followed by an exit on every path",
+                  f"{fq}: an input error is logged but the function returns normally", f"after `logger.error({msg}...)` the normal return is reachable: the rejected input is used anyway",
+                  loc=fn.loc(n.ast))
